@@ -919,3 +919,169 @@ def rule_scope_in_force(ctx, rid="R2.18"):
             f = prog.tables.drafts[d].table.get(k)
             r.fail("%s|scope-in-force|%s" % (f.qual if f is not None else d, k), site(f) if f is not None else where, v)
     return r
+
+
+def rule_no_jump_in_finally(ctx, rid, modules, what):
+    """`return`, `break` or `continue` inside a `finally` clause discards whatever exception is on its way out: an exception a custom
+    format function raises outside its `raises`, an UnknownType, a RefResolutionError -- the caller sees an ordinary answer instead.
+    (An `__exit__` that returns a true value does the same; the tables run the scenarios for that.)"""
+    prog = ctx.prog
+    r = ctx.rule(rid, "no `finally` clause of %s ends in return / break / continue (that would swallow the exception in flight)" % what, floor=1)
+    n_fin = 0
+    for f in sorted(prog.funcs.values(), key=lambda x: x.qual):
+        if f.mod.name not in modules:
+            continue
+        for n in walk_body(f):
+            if not isinstance(n, ast.Try) or not n.finalbody:
+                continue
+            n_fin += 1
+            bad = None
+            todo = list(n.finalbody)
+            while todo:
+                st = todo.pop()
+                if isinstance(st, (ast.FunctionDef, ast.AsyncFunctionDef, ast.ClassDef, ast.Lambda)):
+                    continue
+                if isinstance(st, ast.Return):
+                    bad = st
+                    break
+                if isinstance(st, (ast.Break, ast.Continue)):
+                    bad = st
+                    break
+                for field in ("body", "orelse", "finalbody"):
+                    sub = getattr(st, field, None)
+                    if isinstance(sub, list):
+                        # break/continue inside a loop that is itself inside the finally only leave that loop
+                        if isinstance(st, (ast.For, ast.While)) and field == "body":
+                            todo += [x for x in sub if not isinstance(x, (ast.Break, ast.Continue))]
+                        else:
+                            todo += sub
+                for h in getattr(st, "handlers", []) or []:
+                    todo += h.body
+            if bad is None:
+                r.ok(site(f, n), "finally: no jump out of it")
+            else:
+                r.fail("%s|jump-in-finally|%s" % (f.qual, type(bad).__name__.lower()), site(f, bad),
+                       "`%s` inside a finally clause of %s: an exception on its way out of the try block is discarded and the caller gets an ordinary result" % (
+                           norm(bad)[:40], f.qual))
+    if not n_fin:
+        r.ok("jsonschema/", "no finally clause")
+    return r
+
+
+def rule_first_error_path_lazy(ctx, rid="R11.18"):
+    """is_valid(), validate() and check_schema() take the *first* error and stop: they are as cheap -- and as shallow -- as the way to
+    the first error only while the chain that hands errors up (the dispatcher, descend, and `$ref`, through which every metaschema
+    reaches itself) yields each error as it is produced.  Collecting a referent's errors before yielding any walks the whole
+    subschema first: a candidate with an early mistake and a deep tail then ends in RecursionError instead of SchemaError."""
+    prog = ctx.prog
+    calls = calls_of(prog)
+    V = calls.V
+    r = ctx.rule(rid, "the dispatcher, descend and `$ref` hand each error on as it is produced (no draining of an error iterator before the first yield)", floor=3)
+    funcs = [V.methods["iter_errors"], V.methods["descend"]]
+    for d in prog.tables.drafts.values():
+        f = d.table.get("$ref")
+        if f is not None and f not in funcs:
+            funcs.append(f)
+    funcs = list(calls.with_private_helpers(set(funcs)))
+    DRAIN = ("list", "tuple", "sorted", "set", "frozenset", "dict", "max", "min", "sum")
+    GEN = ("descend", "iter_errors")
+    for f in sorted(funcs, key=lambda x: x.qual):
+        names = set()
+        for n in walk_body(f):
+            if isinstance(n, ast.Assign) and len(n.targets) == 1 and isinstance(n.targets[0], ast.Name) and isinstance(n.value, ast.Call) \
+                    and isinstance(n.value.func, ast.Attribute) and n.value.func.attr in GEN:
+                names.add(n.targets[0].id)
+
+        def is_err_iter(e):
+            return (isinstance(e, ast.Name) and e.id in names) or (isinstance(e, ast.Call) and isinstance(e.func, ast.Attribute) and e.func.attr in GEN) or \
+                (isinstance(e, ast.BoolOp) and any(is_err_iter(v) for v in e.values))
+        bad = 0
+        for n in walk_body(f):
+            hit = None
+            if isinstance(n, ast.Call):
+                last = norm(n.func).split(".")[-1]
+                if (last in DRAIN or (isinstance(n.func, ast.Attribute) and n.func.attr in ("extend",))) and any(is_err_iter(a) for a in n.args):
+                    hit = n
+            elif isinstance(n, (ast.ListComp, ast.SetComp, ast.DictComp)) and any(is_err_iter(g.iter) for g in n.generators):
+                hit = n
+            elif isinstance(n, ast.For) and is_err_iter(n.iter):
+                # a loop over the errors that stores them instead of yielding them
+                ys = [x for st in n.body for x in ast.walk(st) if isinstance(x, (ast.Yield, ast.YieldFrom))]
+                stores = [x for st in n.body for x in ast.walk(st) if isinstance(x, ast.Call) and isinstance(x.func, ast.Attribute) and x.func.attr in ("append", "add", "appendleft")]
+                if stores and not ys:
+                    hit = n
+            if hit is not None:
+                bad += 1
+                r.fail("%s|drains|%s" % (f.qual, norm(hit)[:40]), site(f, hit),
+                       "%s collects the errors of a sub-validation (`%s`) before handing any of them on: the first error is no longer reached by the shortest way "
+                       "(is_valid / validate / check_schema walk the whole referent first)" % (f.qual, norm(hit)[:60]))
+        if not bad:
+            r.ok(site(f), "errors are yielded as they are produced")
+    return r
+
+
+_PROCESS_WIDE = {
+    "sys.setrecursionlimit": "the interpreter's recursion limit", "sys.setswitchinterval": "the thread switch interval", "sys.settrace": "the trace function",
+    "sys.setprofile": "the profile function", "os.chdir": "the working directory", "os.putenv": "the environment", "os.umask": "the umask",
+    "locale.setlocale": "the locale", "random.seed": "the shared random generator", "signal.signal": "a signal handler", "socket.setdefaulttimeout": "the default socket timeout",
+    "gc.disable": "the garbage collector", "gc.enable": "the garbage collector", "gc.set_threshold": "the garbage collector", "warnings.simplefilter": "the warning filters",
+    "warnings.filterwarnings": "the warning filters", "warnings.resetwarnings": "the warning filters", "decimal.setcontext": "the decimal context",
+    "threading.setprofile": "the profile function", "threading.settrace": "the trace function", "threading.stack_size": "the thread stack size",
+    "importlib.invalidate_caches": "the import caches", "re.purge": "the regex cache",
+}
+
+
+def rule_no_process_wide_settings(ctx, rid="R18.10"):
+    """Validators that share no resolver share nothing -- the interpreter's own settings included: code reachable from validation (or from
+    building a validator) that changes a process-wide setting, even to put it back afterwards, couples every validation under way in the
+    process (two suspended iterators restore each other's saved values in the wrong order)."""
+    prog = ctx.prog
+    calls = calls_of(prog)
+    V = calls.V
+    roots = list(calls.validation_roots()) + [V.methods[m] for m in ("__init__", "check_schema") if m in V.methods]
+    rc = prog.classes.get("validators.RefResolver")
+    if rc is not None:
+        roots += [rc.methods[m] for m in ("__init__", "from_schema") if m in rc.methods]
+    reach = set(calls.reachable(roots))
+    r = ctx.rule(rid, "nothing reachable from validating or from building a validator changes a process-wide setting (recursion limit, warning filters, locale, cwd, ...)", floor=40)
+    for f in sorted(reach, key=lambda x: x.qual):
+        bad = 0
+        in_catch = set()
+        for n in walk_body(f):
+            if isinstance(n, ast.With) and any(isinstance(it.context_expr, ast.Call) and norm(it.context_expr.func).endswith("catch_warnings") for it in n.items):
+                for st in n.body:
+                    for x in ast.walk(st):
+                        in_catch.add(id(x))
+        for n in walk_body(f):
+            if not isinstance(n, ast.Call):
+                continue
+            name = None
+            for t in calls.callee(f, n):
+                if t.kind == "ext" and t.name in _PROCESS_WIDE:
+                    name = t.name
+            if name is None and norm(n.func) in _PROCESS_WIDE:
+                name = norm(n.func)
+            if name is None:
+                continue
+            if name.startswith("warnings.") and id(n) in in_catch:
+                continue            # inside `with warnings.catch_warnings():` the filters are saved and restored around the block
+            bad += 1
+            r.fail("%s|process-wide|%s" % (f.qual, name), site(f, n),
+                   "%s calls %s: %s belongs to the whole process, so validations under way in other validators (other threads, suspended iterators) are affected" % (
+                       f.qual, name, _PROCESS_WIDE[name]))
+        # stores into os.environ / sys.path / sys.modules
+        for n in walk_body(f):
+            tgt = None
+            if isinstance(n, ast.Assign):
+                tgt = n.targets[0]
+            elif isinstance(n, ast.AugAssign):
+                tgt = n.target
+            if isinstance(tgt, ast.Subscript) and norm(tgt.value) in ("os.environ", "sys.modules"):
+                bad += 1
+                r.fail("%s|process-wide|%s" % (f.qual, norm(tgt.value)), site(f, n), "%s stores into %s" % (f.qual, norm(tgt.value)))
+            if isinstance(n, ast.Call) and isinstance(n.func, ast.Attribute) and n.func.attr in ("append", "insert", "extend", "remove", "pop") and norm(n.func.value) in ("sys.path", "sys.meta_path"):
+                bad += 1
+                r.fail("%s|process-wide|%s" % (f.qual, norm(n.func.value)), site(f, n), "%s changes %s" % (f.qual, norm(n.func.value)))
+        if not bad:
+            r.ok(site(f), "no process-wide setting touched")
+    return r
